@@ -9,5 +9,5 @@ def run(tier):
         "C16", tier, LEVEL, models=(),
         need=('empty_final_cluster','scaled_data','floor_below_bic_threshold'),
         rule="""every completed run: BIC recomputed from the final model by definition (slogdet), parameter count by maximal runs""",
-        extra=lambda rep, trs, tier: _metrics.bic_family(rep, tier, {"C16"}),
+        extra=lambda rep, trs, tier: (_metrics.bic_family(rep, tier, {"C16"}), _metrics.big_family(rep, tier, {"C16"})),
         nontrivial=lambda t: (t['hdr']['id'],))
